@@ -1,0 +1,29 @@
+// This Source Code Form is subject to the terms of the Mozilla Public
+// License, v. 2.0. If a copy of the MPL was not distributed with this
+// file, You can obtain one at http://mozilla.org/MPL/2.0/.
+
+//go:build verif
+
+package qruntime
+
+import (
+	"github.com/cosi-project/runtime/pkg/controller/runtime/internal/qruntime/internal/containers"
+	"github.com/cosi-project/runtime/pkg/controller/runtime/internal/qruntime/internal/queue"
+)
+
+// VerifQueue re-exports the internal reconcile queue for the external verification harness.
+type VerifQueue[K comparable, V any] = queue.Queue[K, V]
+
+// VerifItem re-exports the internal queue item.
+type VerifItem[K comparable, V any] = queue.Item[K, V]
+
+// VerifPriorityQueue re-exports the internal priority queue.
+type VerifPriorityQueue[K comparable, V any] = containers.PriorityQueue[K, V]
+
+// VerifSliceSet re-exports the internal slice set.
+type VerifSliceSet[T comparable] = containers.SliceSet[T]
+
+// VerifNewQueue creates the internal reconcile queue.
+func VerifNewQueue[K comparable, V any]() *VerifQueue[K, V] {
+	return queue.NewQueue[K, V]()
+}
